@@ -117,7 +117,7 @@ func verifC11CheckSlice(v *vrt.T, fn int, pct float64, b *verifAggBatch, msg edg
 			return
 		}
 	}
-	gi, isI, gf, isF, outT := verifC11ResultPoint(v, msg, as)
+	gi, isI, gf, isF, outT := verifC11ResultPoint(v, msg, as, fn != verifAgg2Stddev || n == 1)
 
 	le := func(i, j int) bool {
 		if b.isInt {
@@ -227,8 +227,11 @@ func verifC11CheckSlice(v *vrt.T, fn int, pct float64, b *verifAggBatch, msg edg
 		}
 
 	case verifAgg2Stddev:
-		// sample standard deviation: a float; undefined (NaN) for a single value. The
-		// value for n >= 2 is decided by VerifC11StddevSmall on a small domain only.
+		// sample standard deviation: a float; undefined (NaN) for a single value; not a
+		// selector. The VALUE for n >= 2 is outside this check: equally valid evaluation
+		// orders round differently, a comparison up to a tolerance needs the solver to
+		// reason about IEEE division and square root chains, and z3/cvc5 time out on
+		// that even when every input ranges over a table of 16 floats.
 		v.Assert(isF, "stddev is a float")
 		if n == 1 {
 			v.Assert(gf != gf, "stddev of one value is NaN")
@@ -306,4 +309,16 @@ func verifC11CheckDistinct(v *vrt.T, b *verifAggBatch, msg edge.Message, as stri
 		}
 		v.Assert(vrt.Or(alts...), "every value of the batch is emitted")
 	}
+}
+
+// verifC11Pow replaces math.Pow under the engine (override in harness.json; the native
+// replay runs the real math.Pow). The stddev reducers call math.Pow(d, 2) on symbolic d,
+// which the engine cannot interpret; d*d is what Go's pow returns for y == 2 whenever the
+// product is zero, normal, infinite or NaN (for a subnormal product Go rounds twice).
+// Nothing asserted or observed by the harness depends on the value.
+func verifC11Pow(x, y float64) float64 {
+	if y != 2 {
+		panic("verif: only math.Pow(x, 2) is modelled")
+	}
+	return x * x
 }
